@@ -5,8 +5,8 @@ ID = "C20"
 ENV_RERUN = 40          # cases repeated from a cargo build-script environment (lib/runner.py with_build_env)
 REQUIRES = ["Wf", "C20Spec"]
 THEOREM_REQUIRES = ["C20"]
-THEOREMS = ["C20_stage_walks", "C20_type_visits", "C20_holds_bool", "C20_output_items_linear"]
-PROOF_FILES = ["Proofs/Traversal.v", "Proofs/TypeDfs.v", "Proofs/C20Proof.v", "Proofs/OutSize.v", "Properties/C20.v"]
+THEOREMS = ["C20_stage_walks", "C20_type_visits", "C20_holds_bool", "C20_output_items_linear", "C20_bind_group_items_linear"]
+PROOF_FILES = ["Proofs/Traversal.v", "Proofs/TypeDfs.v", "Proofs/C20Proof.v", "Proofs/OutSize.v", "Proofs/GroupSize.v", "Properties/C20.v"]
 RULE = ("call-graph families (value-returning chains, statement chains, diamonds h_i{h_{i-1};h_{i-1}}, wide fan-out "
         "to shared helpers, random DAGs) and type families (struct diamonds S_k{a:S_{k-1},b:S_{k-1}}, arrays of "
         "structs, many globals sharing one struct) of growing depth, in two stages (depth<=16 first, then up to 64 "
